@@ -17,8 +17,30 @@ theorem Agree.symm {D : Res → Bool} {s1 s2 : Cpu} (h : Agree D s1 s2) : Agree 
    fun e => ⟨(h.nz e).1.symm, (h.nz e).2.symm⟩, fun e => (h.c e).symm⟩
 
 theorem agree_barrier {opt : VCode} {k : Nat} {s1 s2 : Cpu} (h : Agree (fun r => dead opt r k) s1 s2)
-    (hb : match opt[k]? with | some .dummy | some (.lab _) | some (.ins _ _) | some .rts => False | _ => True) : s1 = s2 :=
+    (hb : match opt[k]? with | some (.ext _) | none => True | _ => False) : s1 = s2 :=
   Agree.full (h.weaken (fun r _ => dead_barrier opt r k hb))
+
+/-- what is dead may grow -/
+theorem Agree.mono {D D' : Res → Bool} {s1 s2 : Cpu} (h : Agree D s1 s2) (hd : ∀ r, D r = true → D' r = true) :
+    Agree D' s1 s2 :=
+  h.weaken (fun r hr => by
+    cases hD : D r with
+    | false => rfl
+    | true => rw [hd r hD] at hr; cases hr)
+
+/-- the two states decide a branch alike when the flag it tests is live -/
+theorem taken_agree {D : Res → Bool} {s1 s2 : Cpu} (h : Agree D s1 s2) (mn : Mn)
+    (hl : ∀ r, brReads mn r = true → D r = false) : Cpu.taken s1.f mn = Cpu.taken s2.f mn := by
+  have hv := h.v
+  cases mn <;> simp only [Cpu.taken]
+  case BCC => have := h.c (hl .c rfl); simp [this]
+  case BCS => have := h.c (hl .c rfl); simp [this]
+  case BEQ => have := (h.nz (hl .nz rfl)).2; simp [this]
+  case BNE => have := (h.nz (hl .nz rfl)).2; simp [this]
+  case BMI => have := (h.nz (hl .nz rfl)).1; simp [this]
+  case BPL => have := (h.nz (hl .nz rfl)).1; simp [this]
+  case BVC => simp [hv]
+  case BVS => simp [hv]
 
 theorem atLine_holds (K' : Facts) (s : Cpu) (h : K'.holds s) (l : VLine) :
     ∃ K'', atLine (some K') l = some K'' ∧ K''.holds s := by
@@ -84,60 +106,56 @@ theorem corr_kept (extF : Nat → Cpu → Cpu) (orig opt : VCode) (acc : Accepte
   | br mn l =>
     have hmid : ¬ ∃ c o', (c = Mn.CLC ∨ c = Mn.SEC) ∧ opt[k]? = some (.ins c .none) ∧ orig[k]? = some (.ins .LDA o') := by
       rintro ⟨c, o', hc, h1, h2⟩; rw [hlo] at h2; simp at h2
-    have hs : s1 = s2 := agree_barrier hag (by simp [hlp])
-    subst hs
+    have hbr : ∀ r, dead opt r k = true → brReads mn r = false ∧ dead opt r (k + 1) = true ∧
+        ∀ t, findLab opt l = some t → dead opt r t = true := fun r hr => dead_br opt r k mn l hlp hr
+    have ht2 : Cpu.taken s1.f mn = Cpu.taken s2.f mn := taken_agree hag mn (fun r hr => by
+      cases hD : dead opt r k with
+      | false => rfl
+      | true => rw [(hbr r hD).1] at hr; cases hr)
     cases ht : Cpu.taken s1.f mn with
-    | none => exact corr_stuck (by simp [step, hlo, ht]) (by simp [step, hlp, ht])
+    | none => exact corr_stuck (by simp [step, hlo, ht]) (by simp [step, hlp, ← ht2, ht])
     | some b =>
       cases b with
       | false =>
-        refine Corr.go 1 1 (k + 1) s1 s1 (by omega) (by omega) (adv_one (by simp [step, hlo, ht]))
-          (adv_one (by simp [step, hlp, ht])) ?_
-        exact inv_next orig opt acc k K _ K s1 s1 hK hlo rfl hmid hh (Agree.refl _ _)
+        refine Corr.go 1 1 (k + 1) s1 s2 (by omega) (by omega) (adv_one (by simp [step, hlo, ht]))
+          (adv_one (by simp [step, hlp, ← ht2, ht])) ?_
+        exact inv_next orig opt acc k K _ K s1 s2 hK hlo rfl hmid hh (hag.mono (fun r hr => (hbr r hr).2.1))
       | true =>
         cases hf : findLab orig l with
         | none =>
           have hf2 : findLab opt l = none := by rw [← acc.labs]; exact hf
-          exact corr_stuck (by simp [step, hlo, ht, hf]) (by simp [step, hlp, ht, hf2])
+          exact corr_stuck (by simp [step, hlo, ht, hf]) (by simp [step, hlp, ← ht2, ht, hf2])
         | some t =>
           have hf2 : findLab opt l = some t := by rw [← acc.labs]; exact hf
-          refine Corr.go 1 1 t s1 s1 (by omega) (by omega) (adv_one (by simp [step, hlo, ht, hf]))
-            (adv_one (by simp [step, hlp, ht, hf2])) ?_
-          exact inv_label orig opt t l s1 s1 (findLab_spec orig l t hf) (Agree.refl _ _)
+          refine Corr.go 1 1 t s1 s2 (by omega) (by omega) (adv_one (by simp [step, hlo, ht, hf]))
+            (adv_one (by simp [step, hlp, ← ht2, ht, hf2])) ?_
+          exact inv_label orig opt t l s1 s2 (findLab_spec orig l t hf) (hag.mono (fun r hr => (hbr r hr).2.2 t hf2))
   | jmp l =>
-    have hs : s1 = s2 := agree_barrier hag (by simp [hlp])
-    subst hs
     cases hf : findLab orig l with
     | none =>
       have hf2 : findLab opt l = none := by rw [← acc.labs]; exact hf
       exact corr_stuck (by simp [step, hlo, hf]) (by simp [step, hlp, hf2])
     | some t =>
       have hf2 : findLab opt l = some t := by rw [← acc.labs]; exact hf
-      refine Corr.go 1 1 t s1 s1 (by omega) (by omega) (adv_one (by simp [step, hlo, hf]))
+      refine Corr.go 1 1 t s1 s2 (by omega) (by omega) (adv_one (by simp [step, hlo, hf]))
         (adv_one (by simp [step, hlp, hf2])) ?_
-      exact inv_label orig opt t l s1 s1 (findLab_spec orig l t hf) (Agree.refl _ _)
+      exact inv_label orig opt t l s1 s2 (findLab_spec orig l t hf) (hag.mono (fun r hr => dead_jmp opt r k l hlp hr t hf2))
   | lab l =>
     have hmid : ¬ ∃ c o', (c = Mn.CLC ∨ c = Mn.SEC) ∧ opt[k]? = some (.ins c .none) ∧ orig[k]? = some (.ins .LDA o') := by
       rintro ⟨c, o', hc, h1, h2⟩; rw [hlo] at h2; simp at h2
     refine Corr.go 1 1 (k + 1) s1 s2 (by omega) (by omega) (adv_one (by simp [step, hlo]))
       (adv_one (by simp [step, hlp])) ?_
-    refine inv_next orig opt acc k K _ Facts.top s1 s2 hK hlo rfl hmid (holds_top s1) ?_
-    have : (fun r => dead opt r (k + 1)) = (fun r => dead opt r k) := by
-      funext r; exact (dead_filler opt r k (Or.inr ⟨l, hlp⟩)).symm
-    rw [this]; exact hag
+    exact inv_next orig opt acc k K _ Facts.top s1 s2 hK hlo rfl hmid (holds_top s1)
+      (hag.mono (fun r hr => dead_filler opt r k (Or.inr ⟨l, hlp⟩) hr))
   | dummy =>
     have hmid : ¬ ∃ c o', (c = Mn.CLC ∨ c = Mn.SEC) ∧ opt[k]? = some (.ins c .none) ∧ orig[k]? = some (.ins .LDA o') := by
       rintro ⟨c, o', hc, h1, h2⟩; rw [hlo] at h2; simp at h2
     refine Corr.go 1 1 (k + 1) s1 s2 (by omega) (by omega) (adv_one (by simp [step, hlo]))
       (adv_one (by simp [step, hlp])) ?_
-    refine inv_next orig opt acc k K _ K s1 s2 hK hlo rfl hmid hh ?_
-    have : (fun r => dead opt r (k + 1)) = (fun r => dead opt r k) := by
-      funext r; exact (dead_filler opt r k (Or.inl hlp)).symm
-    rw [this]; exact hag
+    exact inv_next orig opt acc k K _ K s1 s2 hK hlo rfl hmid hh
+      (hag.mono (fun r hr => dead_filler opt r k (Or.inl hlp) hr))
   | rts =>
-    refine Corr.halt s1 s2 (by simp [step, hlo]) (by simp [step, hlp]) ?_
-    have : (fun r => dead opt r k) = exitDead := by funext r; exact dead_rts opt r k hlp
-    rw [this] at hag; exact hag
+    exact Corr.halt s1 s2 (by simp [step, hlo]) (by simp [step, hlp]) (hag.mono (fun r hr => dead_rts opt r k hlp hr))
   | ext id =>
     have hmid : ¬ ∃ c o', (c = Mn.CLC ∨ c = Mn.SEC) ∧ opt[k]? = some (.ins c .none) ∧ orig[k]? = some (.ins .LDA o') := by
       rintro ⟨c, o', hc, h1, h2⟩; rw [hlo] at h2; simp at h2
@@ -162,23 +180,20 @@ theorem corr_removed (extF : Nat → Cpu → Cpu) (orig opt : VCode) (acc : Acce
     (hs : supported mn = true) (hex : execOK mn o = true)
     (hrem : removable K (fun r => dead opt r (k + 1)) mn o = true) : Corr extF orig opt k s1 s2 := by
   obtain ⟨s1', he⟩ := execOK_some s1 mn o hex
-  have hd : (fun r => dead opt r (k + 1)) = (fun r => dead opt r k) := by
-    funext r; exact (dead_filler opt r k (Or.inl hlp)).symm
   refine Corr.go 1 1 (k + 1) s1' s2 (by omega) (by omega) (adv_one (by simp [step, hlo, he]))
     (adv_one (by simp [step, hlp])) ?_
   refine inv_next orig opt acc k K _ (xfer K mn o) s1' s2 hK hlo rfl (no_mid_of_dummy hlp) (xfer_sound K mn o s1 s1' hs hh he) ?_
-  exact removable_sound K _ mn o s1 s2 s1' hh (by rw [hd]; exact hag) hrem he
+  exact removable_sound K _ mn o s1 s2 s1' hh (hag.mono (fun r hr => dead_filler opt r k (Or.inl hlp) hr)) hrem he
 
 /-- a conditional branch of `orig` that is known not to be taken, replaced by a dummy -/
 theorem corr_removed_br (extF : Nat → Cpu → Cpu) (orig opt : VCode) (acc : Accepted orig opt) (k : Nat) (s1 s2 : Cpu) (K : Facts)
     (mn : Mn) (l : String) (hK : (factsOf orig)[k]? = some (some K)) (hh : K.holds s1)
     (hag : Agree (fun r => dead opt r k) s1 s2) (hlo : orig[k]? = some (.br mn l)) (hlp : opt[k]? = some .dummy)
     (hnt : Cpu.taken s1.f mn = some false) : Corr extF orig opt k s1 s2 := by
-  have hd : (fun r => dead opt r (k + 1)) = (fun r => dead opt r k) := by
-    funext r; exact (dead_filler opt r k (Or.inl hlp)).symm
   refine Corr.go 1 1 (k + 1) s1 s2 (by omega) (by omega) (adv_one (by simp [step, hlo, hnt]))
     (adv_one (by simp [step, hlp])) ?_
-  exact inv_next orig opt acc k K _ K s1 s2 hK hlo rfl (no_mid_of_dummy hlp) hh (by rw [hd]; exact hag)
+  exact inv_next orig opt acc k K _ K s1 s2 hK hlo rfl (no_mid_of_dummy hlp) hh
+    (hag.mono (fun r hr => dead_filler opt r k (Or.inl hlp) hr))
 
 theorem filler_adv (extF : Nat → Cpu → Cpu) (opt : VCode) : ∀ (n k : Nat) (s : Cpu),
     (∀ i, i < n → opt[k + i]? = some .dummy ∨ ∃ l, opt[k + i]? = some (.lab l)) → adv extF opt n k s = some (k + n, s) := by
@@ -195,16 +210,17 @@ theorem filler_adv (extF : Nat → Cpu → Cpu) (opt : VCode) : ∀ (n k : Nat) 
     congr 2; omega
 
 theorem filler_dead (opt : VCode) (r : Res) : ∀ (n k : Nat),
-    (∀ i, i < n → opt[k + i]? = some .dummy ∨ ∃ l, opt[k + i]? = some (.lab l)) → dead opt r k = dead opt r (k + n) := by
+    (∀ i, i < n → opt[k + i]? = some .dummy ∨ ∃ l, opt[k + i]? = some (.lab l)) →
+    dead opt r k = true → dead opt r (k + n) = true := by
   intro n
   induction n with
-  | zero => intro k _; rfl
+  | zero => intro k _ hd; exact hd
   | succ n ih =>
-    intro k h
+    intro k h hd
     have h0 := h 0 (by omega)
-    rw [dead_filler opt r k (by simpa using h0)]
-    rw [ih (k + 1) (fun i hi => by have := h (i + 1) (by omega); rwa [show k + (i + 1) = k + 1 + i by omega] at this)]
-    congr 1; omega
+    have h1 := dead_filler opt r k (by simpa using h0) hd
+    have := ih (k + 1) (fun i hi => by have := h (i + 1) (by omega); rwa [show k + (i + 1) = k + 1 + i by omega] at this) h1
+    rwa [show k + 1 + n = k + (n + 1) by omega] at this
 
 /-- a jump to a label that is reached anyway by falling through -/
 theorem corr_removed_jmp (extF : Nat → Cpu → Cpu) (orig opt : VCode) (acc : Accepted orig opt) (k : Nat) (s1 s2 : Cpu)
@@ -225,13 +241,10 @@ theorem corr_removed_jmp (extF : Nat → Cpu → Cpu) (orig opt : VCode) (acc : 
   have ha := filler_adv extF opt (t - k) k s2 hall
   rw [show k + (t - k) = t by omega] at ha
   refine Corr.go 1 (t - k) t s1 s2 (by omega) (by omega) (adv_one (by simp [step, hlo, hf])) ha ?_
-  refine inv_label orig opt t l s1 s2 (findLab_spec orig l t hf) ?_
-  have : (fun r => dead opt r t) = (fun r => dead opt r k) := by
-    funext r
-    have := filler_dead opt r (t - k) k hall
-    rw [show k + (t - k) = t by omega] at this
-    exact this.symm
-  rw [this]; exact hag
+  refine inv_label orig opt t l s1 s2 (findLab_spec orig l t hf) (hag.mono ?_)
+  intro r hr
+  have := filler_dead opt r (t - k) k hall hr
+  rwa [show k + (t - k) = t by omega] at this
 
 
 theorem clc_reads (c : Mn) (hc : c = Mn.CLC ∨ c = Mn.SEC) (r : Res) : readsReg c .none r = false := by
@@ -323,12 +336,15 @@ theorem corr_swap (extF : Nat → Cpu → Cpu) (orig opt : VCode) (acc : Accepte
     refine Corr.go 2 2 (k + 2) s1b s2b (by omega) (by omega) hadv1 hadv2 ?_
     exact inv_next orig opt acc (k + 1) _ _ _ s1b s2b hK1 ho1 rfl hmid1 hh2 hagb
   · -- the load is gone
-    have hd12 : ∀ r, dead opt r (k + 1) = dead opt r (k + 2) := fun r => dead_filler opt r (k + 1) (Or.inl hp1)
+    have hd12 : ∀ r, dead opt r (k + 2) = false → dead opt r (k + 1) = false := fun r h2 => by
+      cases h1 : dead opt r (k + 1) with
+      | false => rfl
+      | true => rw [dead_filler opt r (k + 1) (Or.inl hp1) h1] at h2; cases h2
     have hag0 : Agree (fun r => r == Res.c || dead opt r (k + 2)) s1 s2 := by
       refine hag.weaken ?_
       intro r hr
       simp only [Bool.or_eq_false_iff, beq_eq_false_iff_ne] at hr
-      exact hnext r hr.1 (by rw [hd12]; exact hr.2)
+      exact hnext r hr.1 (hd12 r hr.2)
     have haga := removable_sound K _ .LDA o s1 s2 s1a hh hag0 hrem he1
     obtain ⟨s2b, hx2, hagb⟩ := exec_agree (D' := fun r => dead opt r (k + 2)) c .none hsc haga
       (by intro r hr; rw [clc_reads c hc] at hr; cases hr)
